@@ -4,6 +4,8 @@ package gen
 
 import (
 	"fmt"
+	"go/parser"
+	"go/token"
 	"sort"
 	"strings"
 
@@ -94,7 +96,7 @@ func (b *builder) packages(prefix, header string, per int) []*tv.Package {
 		}
 		for _, imp := range []string{"log", "fmt"} {
 			for _, f := range b.fns[i:j] {
-				if strings.Contains(f.src, imp+".P") {
+				if strings.Contains(f.src, imp+".P") && usesPackage(f.src, imp) {
 					prelude = "import \"" + imp + "\"\n" + prelude
 					break
 				}
@@ -116,6 +118,21 @@ func (b *builder) packages(prefix, header string, per int) []*tv.Package {
 		out = append(out, p)
 	}
 	return out
+}
+
+// usesPackage: src mentions name as an identifier that is not declared in src itself (a package
+// qualifier), as opposed to a local variable or parameter that is merely spelled like the package.
+func usesPackage(src, name string) bool {
+	f, err := parser.ParseFile(token.NewFileSet(), "x.go", "package x\n\n"+src, 0)
+	if err != nil {
+		return true
+	}
+	for _, id := range f.Unresolved {
+		if id.Name == name {
+			return true
+		}
+	}
+	return false
 }
 
 type width struct {
@@ -150,6 +167,7 @@ func Subset(level int) []*tv.Package {
 		"type Hook struct {\n\tCb func(uint64) uint64\n\tK uint64\n}",
 	}
 	genExprs(b, level)
+	genLiterals(b)
 	genConversions(b, level)
 	genStatements(b, level)
 	genControl(b, level)
@@ -221,6 +239,24 @@ func genExprs(b *builder, level int) {
 	b.add("expr/const/typed", "const FNc uint64 = 41\n\nfunc FN(x uint64) uint64 {\n\treturn x + FNc\n}")
 	b.add("expr/const/derived", "const FNa uint64 = 5\nconst FNb uint64 = FNa * 3\n\nfunc FN(x uint64) uint64 {\n\treturn x * FNb\n}")
 	b.add("expr/named-type", "func FN(x Num, y Num) Num {\n\treturn x + y*2\n}")
+}
+
+// genLiterals: spellings of constants (the value, not the spelling, must arrive).
+func genLiterals(b *builder) {
+	b.add("expr/lit/hex", "func FN(x uint64) uint64 {\n\treturn x&0xFF + 0x10\n}")
+	b.add("expr/lit/hex-upper", "func FN(x uint64) uint64 {\n\treturn x ^ 0XdeadBEEF\n}")
+	b.add("expr/lit/octal", "func FN(x uint64) uint64 {\n\treturn x + 0o17 + 017\n}")
+	b.add("expr/lit/binary", "func FN(x uint64) uint64 {\n\treturn x | 0b1010\n}")
+	b.add("expr/lit/underscores", "func FN(x uint64) uint64 {\n\treturn x + 1_000_000\n}")
+	b.add("expr/lit/max-u64", "func FN(x uint64) uint64 {\n\treturn x & 18446744073709551615\n}")
+	b.add("expr/lit/max-u32", "func FN(x uint32) uint32 {\n\treturn x & 0xFFFFFFFF\n}")
+	b.add("expr/lit/max-u8", "func FN(x byte) byte {\n\treturn x ^ 0xff\n}")
+	b.add("expr/lit/leading-zeros", "func FN(x uint64) uint64 {\n\treturn x + 0x0000000000000001\n}")
+	b.add("expr/lit/string-escapes", "func FN(s string) string {\n\treturn s + \"a\\tb\\\\c\"\n}")
+	b.add("expr/lit/string-hex-escape", "func FN(s string) string {\n\treturn s + \"\\x41\\x7e\"\n}")
+	b.add("expr/lit/string-raw", "func FN(s string) string {\n\treturn s + `a\\nb`\n}")
+	b.add("expr/lit/string-len-of-escapes", "func FN() uint64 {\n\ts := \"\\t\\\\\"\n\treturn uint64(len(s))\n}")
+	b.add("expr/lit/string-non-ascii-len", "func FN() uint64 {\n\ts := \"\\u00e9\"\n\treturn uint64(len(s))\n}")
 }
 
 func genConversions(b *builder, level int) {
